@@ -104,7 +104,16 @@ func (StreamingCRLFileReader) ReadCRL(crlProcessor CRLProcessor, crlFilePath str
 	if version > 2 {
 		return nil, errors.New(fmt.Sprintf("CRL version %d is an unknown version", version))
 	}
-	_, _ = readAlgorithmIdentifier(&reader) //skip algorithm identifier
+	//the signature algorithm inside the signed part must be the one declared outside of it (RFC 5280 5.1.2.2),
+	//the outer one is not covered by the signature but selects hash and verify strategy
+	tbsAlgorithmIdentifier, err := readAlgorithmIdentifier(&reader)
+	if err != nil {
+		return nil, err
+	}
+	if !tbsAlgorithmIdentifier.Algorithm.Equal(algorithmIdentifier.Algorithm) ||
+		!bytes.Equal(tbsAlgorithmIdentifier.Parameters.FullBytes, algorithmIdentifier.Parameters.FullBytes) {
+		return nil, errors.New("signature algorithm of the CRL differs from the signature algorithm inside the signed part")
+	}
 	issuer := new(pkix.RDNSequence)
 	err = asn1parser.ReadStruct(&reader, issuer)
 	if err != nil {
